@@ -178,3 +178,20 @@ Theorem C04_source_default_zip : forall f g pan a b so nd, length a = length b -
   agrees (run_from_iter [b; a] so f g pan (pipe_of gen_default_inverted_zip nd) (length a))
          (zip_ true so f pan a b).
 Proof. exact tie_default_zip. Qed.
+
+(* which methods the impls that run caller code define themselves (regenerated, coq/gen/GenSigs.v):
+   Clone defines clone only (clone_from is the standard default `*self = source.clone()`), Default
+   default, FromIterator from_iter; the panic-safety theorems above cover exactly these bodies *)
+From GA Require Import SigTie.
+From GAGen Require Import GenSigs.
+Theorem C04_source_impl_methods :
+  methods_of "Clone for GenericArray<T,N>" = Some ["clone"] /\
+  methods_of "Default for GenericArray<T,N>" = Some ["default"] /\
+  methods_of "Clone for GenericArrayIter<T,N>" = Some ["clone"] /\
+  methods_of "FromIterator<T> for GenericArray<T,N>" = Some ["from_iter"] /\
+  methods_of "FromIterator<T> for Box<GenericArray<T,N>>" = Some ["from_iter"] /\
+  methods_of "GenericSequence<T> for GenericArray<T,N>" = Some ["generate"; "inverted_zip"; "inverted_zip2"] /\
+  methods_of "FunctionalSequence<T> for GenericArray<T,N>" = Some ["map"; "zip"; "fold"] /\
+  methods_of "GenericSequence<T> for Box<GenericArray<T,N>>" = Some ["generate"] /\
+  methods_of "FunctionalSequence<T> for Box<GenericArray<T,N>>" = Some [].
+Proof. repeat split. Qed.
